@@ -59,6 +59,11 @@ CHECK_REJECT_ORDERID = True  # a cancel reject must carry the OrderID of the ord
 # (depth, last level whose states also emit arbitrary accepted reports as leaf states, state budget) of the fabrication BFS; script length of the fidelity part
 A_QUICK, A_THOROUGH = (5, -1, 400), (7, 2, 3000)
 B_QUICK, B_THOROUGH = 5, 6
+# other public state-touching helper methods as chain ops: states of level <= these bounds also emit the state after
+# reset_messages() / after registering a second order as a leaf state (full grid, not extended): (reset, second order)
+H_QUICK, H_THOROUGH = (2, -1), (2, 1)
+HELPER_LEAF = [-1, -1]  # set by run() before the workers are forked
+PROBE_REPORTS = 2  # reports re-fabricated after each helper method at the end of every grid slice
 FULL_LIB = False  # thorough tier: FIXSchema.validate on every distinct message content
 _G = {}  # per-process lazies: library schema, reference dictionary, enum maps, validation cache
 
@@ -168,16 +173,20 @@ class Track:
         self.leaves = 0  # nothing reported yet
         self.pending = None  # request kind waiting for an answer
         self.finished = False
+        self.reset_after_report = False  # reset_messages() was called after at least one report was fabricated
+        self.second = None  # a second order registered with the same helper
 
     def clone(self):
         t = Track(self.price)
         t.exec_ids = set(self.exec_ids)
         t.order_id, t.reqs, t.qty = self.order_id, dict(self.reqs), self.qty
         t.cum, t.leaves, t.pending, t.finished = self.cum, self.leaves, self.pending, self.finished
+        t.reset_after_report, t.second = self.reset_after_report, self.second
         return t
 
     def model_key(self):
-        return (float(self.qty), float(self.price), float(self.cum), float(self.leaves), self.pending, self.finished)
+        return (float(self.qty), float(self.price), float(self.cum), float(self.leaves), self.pending, self.finished,
+                self.reset_after_report, self.second is not None)
 
     def after_report(self, op):
         _, cl, et, st, cum, lv, last, px, oq, orig = op
@@ -269,6 +278,27 @@ def er_call(ft, o, op):
                                   _f(px), _f(oq), origv)
 
 
+HELPER_METHODS = {"reset": "reset_messages", "reg_again": "registering_the_order_again",
+                  "reg2": "registering_a_second_order"}
+
+
+def helper_method(ft, o, name):
+    """The helper's other public state-touching methods.  Returns the second order for 'reg2'."""
+    from asyncfix.protocol.order_single import FIXNewOrderSingle
+
+    if name == "reset":
+        ft.reset_messages()
+    elif name == "reg_again":
+        ft.order_register_single(o)
+    elif name == "reg2":
+        o2 = FIXNewOrderSingle(o.clord_id_root + "B", o.ticker, side=o.side, price=o.price, qty=QTY_A)
+        ft.order_register_single(o2)
+        return o2
+    else:
+        raise HarnessError(f"unknown helper method {name}")
+    return None
+
+
 def apply_op(ft, o, tr, op):
     """Execute one chain op on the real objects (raises whatever they raise)."""
     k = op[0]
@@ -276,6 +306,12 @@ def apply_op(ft, o, tr, op):
         ft.order_register_single(o)
     elif k == "new":
         o.new_req()
+    elif k in HELPER_METHODS:
+        o2 = helper_method(ft, o, k)
+        if k == "reset" and tr.exec_ids:
+            tr.reset_after_report = True
+        if o2 is not None:
+            tr.second = o2
     elif k == "cxl":
         tr.reqs["F"] = ft.fix_cxl_request(o)
         tr.pending = "F"
@@ -487,10 +523,13 @@ def expand_er(item):
     snap = order_snapshot(o)
     reg = set(ft.registered_orders)
     seen_exec = set(tr.exec_ids)
+    firsts = []
     for op in er_grid(o, tr, et):
         r = judge_er_pair(acc, names, path, ft, o, tr, op, seen_exec)
         if r is None:
             continue
+        if len(firsts) < PROBE_REPORTS:
+            firsts.append((op, r[1]))
         wild = not plausible(tr, op)
         if wild_left < 0 or (wild and wild_left == 0):
             continue
@@ -502,7 +541,64 @@ def expand_er(item):
         acc.add_succ(state_key(ft, oc, tr2), op, wild)
     if order_snapshot(o) != snap or set(ft.registered_orders) != reg:
         raise HarnessError("fix_exec_report_msg changed the order / the registry: exploration by shared state is unsound")
+    probe_helper_methods(acc, names, path, et, ft, o, tr, firsts, seen_exec)
     return acc.pack()
+
+
+def probe_helper_methods(acc, names, path, et, ft, o, tr, firsts, seen_exec):
+    """History so far on this helper instance: the chain + the whole grid slice.  Now call each other public
+    state-touching method and fabricate again: ExecIDs must still be new for the instance, the OrderID unchanged."""
+    g = G()
+    if not firsts:
+        return  # nothing was accepted in this slice: no report to fabricate again
+    for name in ("reset", "reg_again", "reg2"):
+        label = HELPER_METHODS[name]
+        if any(k.startswith(("execid_fresh|reused_after", "execid_fresh|reused_for", "orderid_stable|changed_after"))
+               for k in acc.viol):
+            break  # ids are already compromised on this instance: later methods would only show the consequence
+        acc.calls += 1
+        try:
+            o2 = helper_method(ft, o, name)
+        except Exception as e:
+            acc.outcomes.add(("helper_method_refused", name, type(e).__name__))
+            continue
+        if o2 is not None:
+            oids = []
+            for _ in range(2):
+                acc.calls += 1
+                try:
+                    m = ft.fix_exec_report_msg(o2, o2.clord_id, g["ET"]["A"], g["ST"]["A"])
+                except Exception:
+                    break
+                acc.accepted += 1
+                d = dict_of(m)
+                rep = {"part": "a", "names": list(names), "path": path, "et": et, "after": name, "op": None}
+                if d.get("17") is None or d.get("17") in seen_exec:
+                    acc.v(f"execid_fresh|reused_for_second_order_after_{label}", CL_EXEC,
+                          {"after": name, "second_order_report": d}, rep)
+                seen_exec.add(d.get("17"))
+                oids.append(d.get("37"))
+            if len(oids) == 2 and oids[0] != oids[1]:
+                acc.v("orderid_stable|second_order_two_reports_in_a_row", CL_OID, {"after": name, "order_ids": oids},
+                      {"part": "a", "names": list(names), "path": path, "et": et, "after": name, "op": None})
+        for op, oid in firsts:
+            acc.calls += 1
+            try:
+                m = er_call(ft, o, op)
+            except Exception as e:
+                acc.outcomes.add(("refused_after_helper_method", name, type(e).__name__))
+                continue
+            acc.accepted += 1
+            acc.outcomes.add(("fabricated_after", name))
+            d = dict_of(m)
+            rep = {"part": "a", "names": list(names), "path": path, "et": et, "after": name, "op": op}
+            info = {"history": f"chain {path} + grid slice ExecType={et}, then {name}, then this report", "op": op, "report": d}
+            if d.get("17") is None or d.get("17") in seen_exec:
+                acc.v(f"execid_fresh|reused_after_{label}", CL_EXEC, dict(info, exec_id=d.get("17")), rep)
+            seen_exec.add(d.get("17"))
+            expected = tr.order_id if tr.order_id is not None else oid
+            if d.get("37") != expected:
+                acc.v(f"orderid_stable|changed_after_{label}", CL_OID, dict(info, expected=expected, observed=d.get("37")), rep)
 
 
 REP_VARIANTS = [(True, False), (False, True), (True, True)]
@@ -530,6 +626,21 @@ def expand_misc(item):
         acc.outcomes.add((op[0], str(o2.status)))
         if wild_left >= 0:
             acc.add_succ(state_key(ft2, o2, tr2), op, False)
+    # the helper's other state-touching methods as chain ops (leaf states)
+    if wild_left >= 0:
+        for name, bound in (("reset", HELPER_LEAF[0]), ("reg2", HELPER_LEAF[1])):
+            if len(path) > bound:
+                continue
+            ft2, o2, tr2 = build(names, path)
+            acc.calls += 1
+            try:
+                apply_op(ft2, o2, tr2, [name])
+            except Exception:
+                acc.refused_other += 1
+                continue
+            acc.accepted += 1
+            acc.outcomes.add((name, str(o2.status)))
+            acc.add_succ(state_key(ft2, o2, tr2), [name], True)
     # cancel / replace rejects for every request kind x status
     g = G()
     for kind in sorted(tr.reqs):
@@ -710,6 +821,7 @@ def run(ctx):
     FULL_LIB = not ctx.quick
     depth, wild, max_states = (A_QUICK if ctx.quick else A_THOROUGH)
     blen = B_QUICK if ctx.quick else B_THOROUGH
+    HELPER_LEAF[:] = H_QUICK if ctx.quick else H_THOROUGH
 
     # ---- (a) fabrication
     totals, levels, expanded, unexpanded, seen = run_a(ctx, names, depth, wild, max_states)
@@ -725,12 +837,19 @@ def run(ctx):
         "report as a leaf state); in "
         "every state expanded the full grid ExecType(17) x OrdStatus(14) x cum x leaves x last x price x order_qty x "
         "ClOrdID(own ids) x OrigClOrdID is called on the real helper, every returned report is fabricated twice in a "
-        "row, judged, and processed by a copy of the real order; non-trivial = helper call that returned a message. "
+        "row, judged, and processed by a copy of the real order; after every grid slice the helper's other public "
+        "state-touching methods (reset_messages, order_register_single again / of a second order) are called and reports "
+        "are fabricated again, ExecID freshness and OrderID stability being judged over the whole history of the helper "
+        "instance; the states after reset_messages() / a second registration are also chain states (leaves) for the "
+        "first levels; non-trivial = helper call that returned a message. "
         "(b) every clean session script (initiator Logon, then initiator/acceptor app message, TestRequest, Heartbeat, "
         "Logout; nothing after a Logout) up to the length bound x 2 start-counter pairs, run against "
         "FIXTester(connection=conn) and against a real AsyncFIXDummyServer on a fake link, compared after every step"
     )
     ctx.bounds = {"a_depth": depth, "a_arbitrary_report_leaves_from_levels_upto": wild, "a_state_budget": max_states,
+                  "a_reset_messages_and_second_order_leaves_from_levels_upto": list(HELPER_LEAF),
+                  "a_helper_method_probes": "after every grid slice: reset_messages / register again / register a second "
+                                            f"order, then {PROBE_REPORTS} reports re-fabricated and judged against the whole history",
                   "a_states_per_level": levels, "a_states_expanded": expanded,
                   "a_states_found_not_expanded": unexpanded,
                   "grid": "17 x 14 x {nan,0,q/2,q} x {nan,0,E/2,E,E-cum} x {nan,q/2,q,cum-cum0} x {nan,p+1} x {nan,q'} x "
@@ -772,6 +891,12 @@ def replay(ctx, rep):
         session_call(acc, names, rep["ft"], rep["factory"], rep["args"], rep["kw"])
         return list(acc.viol.values())
     path, op = rep["path"], rep["op"]
+    if rep.get("after"):
+        try:
+            res = expand_er((names, path, -1, rep["et"]))
+        except Exception:
+            return []
+        return [v for v in res["viol"] if v["replay"].get("after") == rep["after"] and v["replay"].get("op") == op]
     try:
         ft, o, tr = build(names, path)
     except Exception:
